@@ -208,11 +208,36 @@ func init() {
 				}
 			}
 			// every literal-valued property with hostile literals
-			hostile := []interface{}{"", "-", "P", "-P", "PT", "P1", "T", "2020", "2020-01-01T", "99999999999999999999", -1.0, 1e300, "\u0000", []interface{}{}, map[string]interface{}{}, nil, true}
+			hostile := []interface{}{"", "-", "P", "-P", "PT", "P1", "T", "2020", "2020-01-01T", "99999999999999999999", -1.0, 1e300, "\u0000", []interface{}{}, map[string]interface{}{}, nil, true,
+				// near-valid lexical forms of every literal kind: legal-but-unusual, trailing garbage, out-of-range fields
+				"PT0.5S", "P1W", "PT2H ", " PT2H", "P1Y2", "P-1Y", "PT1H1H", "P1Y2M3DT4H5M6.7S", "-PT", "+P1D", "P1.5Y", "PT1S\n", "P99999999999Y",
+				"2020-13-01T00:00:00Z", "2020-01-01T25:00:00Z", "2020-01-01t00:00:00z", "2020-01-01T00:00:00", "2020-01-01T00:00Z", "0000-00-00T00:00:00Z", "2020-01-01T00:00:00+99:99", "2020-01-01T00:00:00.123456789123Z",
+				1.5, 1e20, 4294967296.0, 9007199254740993.0, "5", "en--us", "x", "text/", "/plain", "text/plain; q", ";", "https://", "http://[::1", "mailto:", "#frag", "?q"}
+			// on a type that has the property (so that the member is decoded, not kept as an unknown member)
+			hasProp := func(tn, prop string) bool {
+				for _, p := range typeProps[tn] {
+					if p == prop {
+						return true
+					}
+				}
+				return false
+			}
+			hostFor := func(prop string) string {
+				if hasProp("Note", prop) {
+					return "Note"
+				}
+				for _, tn := range sortedTypeNames() {
+					if hasProp(tn, prop) {
+						return tn
+					}
+				}
+				return "Note"
+			}
 			for _, pe := range propTable {
+				host := hostFor(pe.Name)
 				for _, h := range hostile {
-					yield(J{"k": "decode", "ex": -1, "mut": "literal@" + pe.Name, "doc": map[string]interface{}{"type": "Note", pe.Name: h}})
-					yield(J{"k": "decode", "ex": -1, "mut": "literalArr@" + pe.Name, "doc": map[string]interface{}{"type": "Note", pe.Name: []interface{}{h, h}}})
+					yield(J{"k": "decode", "ex": -1, "mut": "literal@" + pe.Name, "doc": map[string]interface{}{"type": host, pe.Name: h}})
+					yield(J{"k": "decode", "ex": -1, "mut": "literalArr@" + pe.Name, "doc": map[string]interface{}{"type": host, pe.Name: []interface{}{h, h}}})
 				}
 			}
 			// arbitrary byte strings
